@@ -28,16 +28,19 @@ def renderRoute (ds : Dataset) (r : Route) : String :=
     ++ ", ".intercalate (r.steps.map (renderStep ds))
 
 /-- the calculation both `/v2/route` and `/v2/summary` run: routes and `totalRoutesCalculated` -/
-def routeAnswer (ds : Dataset) (p : Params) : Outcome (List Route × Nat) :=
-  if p.alternatives then alternativesRouting ds p
-  else match calculateSingle ds p with
+def routeAnswerCS (ds : Dataset) (cs : ConnSet) (p : Params) : Outcome (List Route × Nat) :=
+  if p.alternatives then alternativesRoutingCS ds cs p
+  else match calculateSingleCS ds cs p with
     | .ok r => .ok ([r], 1)
     | .noRouting r => .noRouting r
     | .exception w => .exception w
 
+def routeAnswer (ds : Dataset) (p : Params) : Outcome (List Route × Nat) :=
+  routeAnswerCS ds (ds.connSetOf (ds.scenarioOf p)) p
+
 /-- `/v2/route` -/
-def renderRouteAnswer (ds : Dataset) (p : Params) : String :=
-  match routeAnswer ds p with
+def renderRouteAnswerCS (ds : Dataset) (cs : ConnSet) (p : Params) : String :=
+  match routeAnswerCS ds cs p with
   | .ok (rs, n) => s!"route success n={n} ## " ++ " ## ".intercalate (rs.map (renderRoute ds))
   | .noRouting r => s!"route no_routing_found {routeReasonString r}"
   | .exception w => s!"route exception {w}"
@@ -58,25 +61,32 @@ def summaryOf (ds : Dataset) (rs : List Route) : Nat × List (Nat × Nat) :=
   (rs.length, summaryCounts (rs.flatMap (routeLines ds)))
 
 /-- `/v2/summary`: same calculation, aggregated; "no routing" is a success with 0 routes -/
-def summaryAnswer (ds : Dataset) (p : Params) : Outcome (Nat × List (Nat × Nat)) :=
-  match routeAnswer ds p with
+def summaryAnswerCS (ds : Dataset) (cs : ConnSet) (p : Params) : Outcome (Nat × List (Nat × Nat)) :=
+  match routeAnswerCS ds cs p with
   | .ok (rs, _) => .ok (summaryOf ds rs)
   | .noRouting _ => .ok (summaryOf ds [])
   | .exception w => .exception w
 
-def renderSummaryAnswer (ds : Dataset) (p : Params) : String :=
-  match summaryAnswer ds p with
+def summaryAnswer (ds : Dataset) (p : Params) : Outcome (Nat × List (Nat × Nat)) :=
+  summaryAnswerCS ds (ds.connSetOf (ds.scenarioOf p)) p
+
+def renderSummaryAnswerCS (ds : Dataset) (cs : ConnSet) (p : Params) : String :=
+  match summaryAnswerCS ds cs p with
   | .ok (nb, counts) =>
     s!"summary success nb={nb} ## " ++ ", ".intercalate (counts.map fun (l, n) => s!"l{l} a{(ds.lineRec l).agency} {n}")
   | .noRouting _ => "summary exception unreachable"
   | .exception w => s!"summary exception {w}"
 
 /-- `/v2/accessibility` -/
-def renderAccessibilityAnswer (ds : Dataset) (p : Params) : String :=
-  match calculateAllNodes ds p with
+def renderAccessibilityAnswerCS (ds : Dataset) (cs : ConnSet) (p : Params) : String :=
+  match calculateAllNodesCS ds cs p with
   | .ok (nodes, total) => s!"accessibility success total={total} ## " ++
       ", ".intercalate (nodes.map fun n => s!"n{n.stop} {n.nodeTime} {n.totalTravelTime} {n.numberOfTransfers}")
   | .noRouting r => s!"accessibility no_routing_found {accReasonString r}"
   | .exception w => s!"accessibility exception {w}"
+
+def renderRouteAnswer (ds : Dataset) (p : Params) : String := renderRouteAnswerCS ds (ds.connSetOf (ds.scenarioOf p)) p
+def renderSummaryAnswer (ds : Dataset) (p : Params) : String := renderSummaryAnswerCS ds (ds.connSetOf (ds.scenarioOf p)) p
+def renderAccessibilityAnswer (ds : Dataset) (p : Params) : String := renderAccessibilityAnswerCS ds (ds.connSetOf (ds.scenarioOf p)) p
 
 end Tr
